@@ -221,6 +221,10 @@ def synth(rng: random.Random, layout: str = 'v20', *, compress: tuple = (), orig
         d['FACEIDS'] = b''.join(L['FACEID'].pack(100 + i) for i in range(n_faces))
     elif faceids == 'zeros':
         d['FACEIDS'] = b''.join(L['FACEID'].pack(0) for i in range(n_faces))
+    elif faceids == 'short':        # fewer ids than faces: the reader gives the surplus faces hammer_id None
+        d['FACEIDS'] = b''.join(L['FACEID'].pack(100 + i) for i in range(n_faces - 1))
+    elif faceids == 'long':         # more ids than faces: the surplus is never looked at
+        d['FACEIDS'] = b''.join(L['FACEID'].pack(100 + i) for i in range(n_faces + 2))
     # brushes
     n_br = 2
     if vit:
